@@ -64,6 +64,25 @@ def run(chk):
         from . import pure
         streams = [("corpus", pure.corpus_cases("C02"))] + gen(chk, chk.tier)
         pure.run_streams(chk, binary, streams, compare, qc.monitor_c02, nontrivial)
+        # runtime dependence: the same solo runs with a single P (GOMAXPROCS=1: nothing may depend on another
+        # goroutine getting the processor); a sample of every stream, implementation side against the same model answers
+        import os
+        one = [c for _, cs in streams for c in cs[:: max(1, len(cs) // 400)]]
+        try:
+            impl1 = common.run_impl(binary, one, env=dict(os.environ, GOMAXPROCS="1"))
+            model1 = common.run_model(one)
+            for c, m, i in zip(one, model1, impl1):
+                chk.count_case("solo-single-P", c, True)
+                mf = qc.monitor_c02(c, i)
+                if mf:
+                    chk.monitor_fail(mf[0], c + "  [GOMAXPROCS=1]", i, mf[1] + " (with GOMAXPROCS=1)")
+                else:
+                    note = compare(c, m, i)
+                    if note:
+                        chk.diverge("solo-single-P", c + "  [GOMAXPROCS=1]", m, i, note)
+        except common.ImplCrash as e:
+            chk.monitor_fail("solo-hang", "sample of %d cases with GOMAXPROCS=1" % len(one), str(e)[-300:],
+                             "the solo runs did not finish with GOMAXPROCS=1: " + str(e)[-200:])
         # histogram of solo lengths (from the implementation side)
     chk.finish(search=search)
 
